@@ -47,7 +47,7 @@ CHECKS = {
         design="4 (C03)", note=NOTE_R),
 }
 
-PENDING_PROOF_REPAIR = {"C03", "C07"}
+PENDING_PROOF_REPAIR = set()
 NOT_YET = {
     "C03": "check built; proofs being repaired after the D1 fix changed the model (tolerance in containment)",
     "C07": "check built; proofs/PolyLP.v being repaired after the D1 fix changed the model",
